@@ -426,15 +426,16 @@ def run(tier, seed):
               ("clinic", {"binding": False, "embedsignature": True, "embedsignature.format": "clinic"},
                lambda c: c["path"] in ([], ["ccls"]) and c["leaf"] == "def")]
     for tag, dirs, flt in SIGCFG:
-        g = BlockGen()
-        meta = {}
-        for c in sig_chosen:
-            if flt is None or flt(c):
+        sel = [c for c in sig_chosen if flt is None or flt(c)]
+        for ci in range(0, len(sel), 250):
+            g = BlockGen()
+            meta = {}
+            for c in sel[ci:ci + 250]:
                 meta[c["cid"]] = render_sig_case(g, c["cid"], c)
-        m = Mod("c25s_" + tag, g, dirs, ("sig", tag))
-        m.meta = meta
-        mods.append(m)
-        sig_mods.append(m)
+            m = Mod("c25s_%s%d" % (tag, ci // 250), g, dirs, ("sig", tag))
+            m.meta = meta
+            mods.append(m)
+            sig_mods.append(m)
 
     phase["prepare"] = round(time.time() - t0 - sum(phase.values()), 1)
     build_modules(mods, os.path.join(wd, "build"), jobs, rep)
